@@ -30,10 +30,14 @@ CHECKED = ("p2pkh", "p2sh", "wif", "bip32_prv", "bip32_pub", "bip49_prv", "bip49
 KEY_CATS = ("key", "bip32", "bip49", "bip84", "electrum")
 
 
+_SIG_FIELDS = {"b58c": ("starts", "fits"), "seg": ("own", "ver", "len", "var"), "colon": ("tag",), "num": ("w", "even", "len", "b0", "on", "se"),
+               "pair": ("inrange", "on", "y"), "hexsec": ("own", "len", "on")}
+
+
 def _cls_sig(cls):
-    """compact, stable signature of the class label TLC printed for a text"""
-    parts = []
-    for k in sorted(cls):
+    """compact, stable signature of the class label TLC printed for a text (the part findings are keyed by)"""
+    parts = ["f=" + cls["f"]]
+    for k in _SIG_FIELDS.get(cls["f"], ()):
         v = cls[k]
         if isinstance(v, list):
             v = "+".join(str(x) for x in sorted(v, key=str)) if not (v and isinstance(v[0], int)) else "".join(map(chr, v))
@@ -158,6 +162,14 @@ def _case_chunk(recs):
                               "n": r["n"], "entry": e, "text": text, "t": t})
         if r["ans"]:
             classes.add((r["n"], sig))
+        # facts about the TABLE the rules expose (on synthetic tables they are invariants of the model)
+        if not r["apart"]:
+            fails.append({"key": "C18|table|two-kinds-answer|N=%s|%s" % (r["n"], "+".join(sorted(r["answering"]))),
+                          "what": "on %s the text %r is a valid text of the checksummed kinds %s" % (r["n"], text, r["answering"]), "n": r["n"], "text": text})
+        if not r["faithful"]:
+            fails.append({"key": "C18|table|not-faithful|N=%s|%s" % (r["n"], sig),
+                          "what": "on %s an object parsed from %r re-serialises to a text that the rules parse to something else (kinds of the table are not apart)" % (r["n"], text),
+                          "n": r["n"], "text": text})
         # ---- faithfulness: the rules' re-serialisation is pycoin's, and parses back to the same object
         for rs in r["reser"]:
             val = objs.get(json.dumps(rs["o"], sort_keys=True))
@@ -560,7 +572,7 @@ def _run(ctx, q, stage, env, tbl):
         ctx.action("replay.grid", state["n"])
         ctx.log("grid: %d texts x %d entry points, %d disagreements (incl. known)" % (state["n"], len(entries), nf))
         # binding self-test: a corrupted expectation must be noticed
-        probe = {"n": "BTC", "t": dict(nets._tx("b58c", d=[0] + [17] * 20, w="sha256d")), "cls": {"f": "b58c", "starts": ["p2pkh"], "fits": ["p2pkh"]}, "maynone": [], "reser": [], "reparse": [],
+        probe = {"n": "BTC", "t": dict(nets._tx("b58c", d=[0] + [17] * 20, w="sha256d")), "cls": {"f": "b58c", "starts": ["p2pkh"], "fits": ["p2pkh"]}, "maynone": [], "reser": [], "reparse": [], "apart": True, "faithful": True, "answering": [],
                  "ans": [["p2pkh", {"r": "obj", "k": "contract", "p": False, "d": [18] * 20, "d2": [], "b": False, "s": "p2pkh", "toks": []}]],
                  "entries": ["p2pkh"], "dispatch": {}}
         res = _case_chunk([probe])
